@@ -196,102 +196,73 @@ def run(prog: Program, rep, thorough: bool) -> None:
                  f'the filter\'s range step is `{kw.get("range_step")}`, not the requested step')
 
     # ---- R4: time-step recording -----------------------------------------------------------------
-    cnt = prog.func(C.M_TC, '_TrajectoryDataFilter.check_next_time')
-    rep.saw(cnt)
-    ev4 = Evaluator(prog)
-    st = State()
-    flt4 = _mk_filter(ev4, st, prog)
-    try:
-        tree4, st = ev4.run_func(cnt, {cnt.positional[0]: flt4, cnt.positional[1]: S('tm')}, st)
-    except Undecided as exc:
-        raise AnalysisError(f'check_next_time: {exc}') from exc
-    tm, tlr, ts = A.sym('tm'), A.sym('tlr'), A.sym('ts')
-    probs4 = []
-    for path, leaf in leaves(tree4):
-        due = None
-        for t, pol in path:
-            if t.kind == 'pos' and t.rf.equals(tm - tlr - ts):
-                due = pol
-            elif t.kind == 'nonneg' and t.rf.equals(tm - tlr - ts):
-                due = pol
-            elif t.kind == 'nonneg' and t.rf.equals(tlr + ts - tm):
-                due = not pol
-            elif t.kind == 'pos' and t.rf.equals(tlr + ts - tm):
-                due = not pol
-            else:
-                probs4.append(f'depends on {t!r}')
-        h4 = leaf.state.heap[flt4.oid]
-        fl, last = h4.get('current_flag'), h4.get('time_of_last_record')
-        if due:
-            if not (isinstance(fl, Scalar) and fl.rf.is_const() and int(fl.rf.const_value()) == flags['RANGE']):
-                probs4.append(f'when a time step has elapsed the row flag is {fl!r}, expected RANGE')
-            if not (isinstance(last, Scalar) and last.rf.equals(tm)):
-                # an earlier clock only produces more rows (the spacing bound still holds); a later one cannot be
-                # excluded statically: reported, not failed
-                rep.undecided('C03.R4', cnt.where, 'clock after a time row', f'becomes {last!r} instead of the current time')
-        elif due is False:
-            if not (isinstance(fl, Scalar) and fl.rf.is_zero() and isinstance(last, Scalar) and last.rf.equals(tlr)):
-                probs4.append('flags or the time of the last record change although no time row is due')
-    if not any(True for _ in leaves(tree4)) or all(not any(t.rf is not None for t, _p in p_) for p_, _l in leaves(tree4)):
-        probs4.append('no test of the elapsed time')
-    if probs4:
-        rep.fail('C03.R4', tc.path, cnt.node.lineno, cnt.qualname, 'time-step', '; '.join(sorted(set(probs4))[:3]))
-    else:
-        rep.ok('C03.R4', cnt.where, 'a time row is due exactly when time > last record + time step; then RANGE is raised and '
-               'the last-record time becomes the current time')
-    # should_record: the range branch also resets the last-record time; otherwise check_next_time(time) runs when ts > 0
-    seen_calls = []
-
-    def cnt_hook(ev_, func, args, kwargs, st_, self_val):
-        seen_calls.append(args[0] if args else None)
-        if isinstance(self_val, Inst):
-            st_.heap[self_val.oid]['$time_checked'] = Const(True)
-        return NONE
-    ev5 = Evaluator(prog, hooks={'call:_TrajectoryDataFilter.check_next_time': cnt_hook},
-                    opaque={'check_zero_crossing', 'check_mach_crossing'})
+    # should_record is evaluated whole (the elapsed-time test may live in a helper or inline) in plain mode; which
+    # case a path belongs to is found by evaluating its guards at one point of every ordering of
+    # (time - last record) against the time step, with no range row due.
+    from .c16 import reachable_leaves
+    ev5 = Evaluator(prog, opaque={'check_zero_crossing', 'check_mach_crossing'})
     st = State()
     flt5 = _mk_filter(ev5, st, prog, filter=Scalar(flags['RANGE']))
     pos5 = C.mk_vec(ev5, st, prog, 'qx', 'qy', 'qz')
     vel5 = C.mk_vec(ev5, st, prog, 'ux', 'uy', 'uz')
-    tree5, st = ev5.run_func(sr, {sr.positional[0]: flt5, sr.positional[1]: pos5, sr.positional[2]: vel5,
-                                  sr.positional[3]: S('am'), sr.positional[4]: S('tm')}, st)
-    reset_ok = True
-    n_range = 0
-    for path, leaf in leaves(tree5):
-        h5 = leaf.state.heap[flt5.oid]
-        nrd5 = h5.get('next_record_distance')
-        advanced = isinstance(nrd5, Scalar) and not nrd5.rf.equals(A.sym('nrd'))
-        if advanced:
-            n_range += 1
-            last = h5.get('time_of_last_record')
-            if not (isinstance(last, Scalar) and last.rf.equals(A.sym('tm'))):
-                reset_ok = False
-    called_with_time = bool(seen_calls) and all(isinstance(a_, Scalar) and a_.rf.equals(A.sym('tm')) for a_ in seen_calls)
-    rep.extra['range_row_restarts_time_clock'] = bool(reset_ok and n_range)     # reported: not an obligation (a clock
-    #                                            that is not restarted only produces more rows)
-    rep.extra['time_check_called_with_current_time'] = bool(called_with_time)   # reported: one step of lag is inside
-    #                                            the "plus two integration steps" of the statement
-    # on every path on which no range row is due and the time step is positive, the elapsed time must be checked
-    skipped = []
-    for path, leaf in leaves(tree5):
-        if leaf.kind == 'raise':
-            continue
-        h5 = leaf.state.heap[flt5.oid]
-        nrd5 = h5.get('next_record_distance')
-        advanced = isinstance(nrd5, Scalar) and not nrd5.rf.equals(A.sym('nrd'))
-        ts_pos = any(t.kind == 'pos' and t.rf is not None and t.rf.equals(A.sym('ts')) and pol for t, pol in path)
-        ts_tested = any(t.rf is not None and 'ts' in t.rf.symbols() for t, _pol in path)
-        if not advanced and '$time_checked' not in h5 and (ts_pos or not ts_tested):
-            skipped.append(path)
-    if seen_calls and skipped:
-        rep.fail('C03.R4', tc.path, sr.node.lineno, sr.qualname, 'time-check-skipped',
-                 'should_record has a path on which no range row is due and the elapsed time is not checked although a time '
-                 'step may be set (' + ' and '.join(('' if pol else 'not ') + repr(t) for t, pol in skipped[0][:3]) + '): time rows vanish there')
-    elif seen_calls:
-        rep.ok('C03.R4', sr.where, 'when no range row is due and a time step is set, the elapsed time is checked')
+    try:
+        tree5, st = ev5.run_func(sr, {sr.positional[0]: flt5, sr.positional[1]: pos5, sr.positional[2]: vel5,
+                                      sr.positional[3]: S('am'), sr.positional[4]: S('tm')}, st)
+    except Undecided as exc:
+        raise AnalysisError(f'should_record: {exc}') from exc
+    probs4 = []
+    undec4 = []
+    base_env = {'qx': 50.0, 'nrd': 100.0, 'px': 49.0, 'tlr': 2.0}
+    points = [('a time step has elapsed (time = last + 1.5 step)', True, dict(base_env, rs=100.0, ts=2.0, tm=5.0)),
+              ('a time step has elapsed, no distance step set', True, dict(base_env, rs=0.0, ts=2.0, tm=5.0)),
+              ('exactly one time step has elapsed', False, dict(base_env, rs=100.0, ts=2.0, tm=4.0)),
+              ('less than a time step has elapsed', False, dict(base_env, rs=100.0, ts=2.0, tm=3.0)),
+              ('no time step set', False, dict(base_env, rs=100.0, ts=0.0, tm=50.0))]
+    n_seen = 0
+    for what, due, env_ in points:
+        env_['pt'] = env_['tm'] - 0.001          # the previous sample is one integration step earlier
+        for leaf in reachable_leaves(tree5, env_):
+            if leaf.kind == 'raise':
+                probs4.append(f'{what}: should_record raises')
+                continue
+            n_seen += 1
+            h5 = leaf.state.heap[flt5.oid]
+            fl, last, nrd5 = h5.get('current_flag'), h5.get('time_of_last_record'), h5.get('next_record_distance')
+            if not (isinstance(nrd5, Scalar) and nrd5.rf.equals(A.sym('nrd'))):
+                probs4.append(f'{what}: the record distance advances although the projectile is short of it')
+                continue
+            flagged = isinstance(fl, Scalar) and fl.rf.is_const() and int(fl.rf.const_value()) & flags['RANGE']
+            got_row = isinstance(leaf.value, Inst)
+            if due:
+                if not flagged or not got_row:
+                    probs4.append(f'{what} and no range row is due: ' + ('the sample is not flagged RANGE' if not flagged else
+                                                                          'no row is returned') + ': time rows vanish')
+                elif not (isinstance(last, Scalar) and last.rf.equals(A.sym('tm'))):
+                    # an earlier clock only produces more rows (the spacing bound still holds); a later one cannot be
+                    # excluded statically: reported, not failed
+                    undec4.append(f'after a time row the clock becomes {last!r} instead of the current time')
+            else:
+                if flagged or got_row:
+                    probs4.append(f'{what}: a row is recorded although none is due')
+                elif not (isinstance(last, Scalar) and last.rf.equals(A.sym('tlr'))):
+                    probs4.append(f'{what}: the time of the last record changes although no row is recorded')
+    if n_seen == 0:
+        raise AnalysisError('should_record: no path read for the time-step cases')
+    for u_ in sorted(set(undec4)):
+        rep.undecided('C03.R4', sr.where, 'clock after a time row', u_)
+    if probs4:
+        rep.fail('C03.R4', tc.path, sr.node.lineno, sr.qualname, 'time-step', '; '.join(sorted(set(probs4))[:3]))
     else:
-        rep.fail('C03.R4', tc.path, sr.node.lineno, sr.qualname, 'time-clock',
-                 'should_record never checks the elapsed time: no time-step rows are produced')
+        rep.ok('C03.R4', sr.where, 'with no range row due, a time row is recorded (flag RANGE, row returned, clock restarted) exactly '
+               'when time > last record + time step, also when no distance step is set')
+        rep.ok('C03.R4', sr.where, 'one step exactly, less than a step, or no time step: nothing recorded, clock untouched')
+    # a range row restarts the clock (reported: a clock that is not restarted only produces more rows)
+    restart = []
+    for leaf in reachable_leaves(tree5, dict(base_env, qx=150.0, px=140.0, rs=100.0, ts=2.0, tm=2.5)):
+        if leaf.kind != 'raise':
+            last = leaf.state.heap[flt5.oid].get('time_of_last_record')
+            restart.append(isinstance(last, Scalar) and last.rf.equals(A.sym('tm')))
+    rep.extra['range_row_restarts_time_clock'] = bool(restart) and all(restart)
 
     # ---- R3 ------------------------------------------------------------------------------------
     dom = F.cfg.dominators()
@@ -434,6 +405,7 @@ VARIANTS = [
     Variant('muzzle-row-shifted-time', 'break', [(TCF, "            data = BaseTrajData(time=time, position=position,\n                                velocity=velocity, mach=mach)", "            data = BaseTrajData(time=time + 1e-9, position=position,\n                                velocity=velocity, mach=mach)")], 'C03.R3'),
     Variant('time-row-due-after-two-steps', 'break', [(TCF, 'if time > self.time_of_last_record + self.time_step:', 'if time > self.time_of_last_record + 2 * self.time_step:')], 'C03.R4', 'spacing bound broken'),
     Variant('time-check-dropped', 'break', [(TCF, '        elif self.time_step > 0:\n            self.check_next_time(time)\n', '')], 'C03.R4', 'no time rows at all'),
+    Variant('twin-time-check-inlined', 'twin', [(TCF, '        elif self.time_step > 0:\n            self.check_next_time(time)\n', '        elif self.time_step > 0 and time > self.time_of_last_record + self.time_step:\n            self.current_flag |= TrajFlag.RANGE\n            self.time_of_last_record = time\n')], None, 'the helper inlined'),
     Variant('twin-time-check-uses-previous-time', 'twin', [(TCF, '            self.check_next_time(time)\n', '            self.check_next_time(self.previous_time)\n')], None, 'one step late: inside the two-step allowance'),
     Variant('twin-range-row-keeps-time-clock', 'twin', [(TCF, '            self.next_record_distance += self.range_step\n            self.time_of_last_record = time\n', '            self.next_record_distance += self.range_step\n')], None, 'more rows, spacing bound still holds'),
     Variant('twin-mach-not-interpolated', 'twin', [(TCF, 'mach=self.previous_mach + (mach - self.previous_mach) * ratio', 'mach=mach')], None, 'within one step: tolerated', 'pass'),
